@@ -1,14 +1,356 @@
 /-
   C16 — Pretty-printing renders the tree shape faithfully in every style.
-  Property theorems only; helper lemmas live in Nutree/Lemmas.
+  Property theorems only; helper lemmas live in Nutree/Lemmas (Format*.lean).
+
+  Setting: `root` is the system root with pairwise distinct node identities (`IdsNodup root`),
+  `start` the node at path `sp` (`root.sub sp = some start`; `sp = []` is the system root itself).
 -/
 import Nutree.Model.Format
 import Nutree.Spec.Format
+import Nutree.Lemmas.Format
+import Nutree.Lemmas.FormatLines
+import Nutree.Lemmas.FormatShape
+import Nutree.Lemmas.FormatFlags
 namespace Nutree.C16
-open Nutree T Nutree.Fmt
+open Nutree T Nutree.Fmt Nutree.C10
+
+/-! ### (4) the regenerated connector table -/
 
 /-- every style of the regenerated `CONNECTORS` table has 4 or 6 segments (so `_get_prefix`
 never raises for a table style). -/
 theorem table_arity : ∀ s ∈ Nutree.Generated.connectors, (unpack s.2).isSome = true := by decide
+
+/-- Bool-valued checker: the style unpacks and its widths are uniform. -/
+def styleOk (segs : List String) : Bool :=
+  match unpack segs with
+  | some s6 => decide (Spec.UniformWidths s6)
+  | none => false
+
+theorem styleOk_iff (segs : List String) :
+    styleOk segs = true ↔ ∃ s6, unpack segs = some s6 ∧ Spec.UniformWidths s6 := by
+  unfold styleOk
+  cases unpack segs with
+  | none => simp
+  | some s6 => simp
+
+/-- every style of the regenerated table has 4 or 6 segments of uniform widths: the two
+ancestor segments are equally wide (and not empty), and all own connectors are equally wide. -/
+theorem table_ok : ∀ e ∈ Nutree.Generated.connectors,
+    ∃ s6, unpack e.2 = some s6 ∧ Spec.UniformWidths s6 := by
+  have h : ∀ e ∈ Nutree.Generated.connectors, styleOk e.2 = true := by decide
+  intro e he
+  exact (styleOk_iff e.2).1 (h e he)
+
+/-! ### (1) the lines of `format_iter` -/
+
+/-- `_get_prefix` of the node at the non-empty path `p` is the joined list of segments
+`Spec.prefixParts`: one segment per ancestor below the stripped levels (`s0` iff that ancestor
+is a last sibling), then the own connector. -/
+theorem prefix_spec (root n : T) (p : List Nat) (hN : IdsNodup root) (hp : p ≠ [])
+    (hs : root.sub p = some n) (segs : List String) (s6 : Spec.Segs6)
+    (hu : unpack segs = some s6) (lstrip : Nat) :
+    getPrefix root n segs lstrip = some (String.join (Spec.prefixParts root s6 lstrip p n)) :=
+  getPrefix_eq hN hp hs hu lstrip
+
+/-- `format_iter` with a custom segment list: one line per node, in pre-order,
+`prefix ++ rendering`, the prefix as specified through paths. -/
+theorem format_lines (root start : T) (sp : List Nat) (hN : IdsNodup root)
+    (hs : root.sub sp = some start) (render : T → String) (segs : List String) (addSelf : Bool) :
+    formatIter root start render (.custom segs) addSelf =
+      Spec.lines root start sp render segs addSelf := by
+  unfold formatIter
+  rw [if_neg (by simp)]
+  exact renderLines_eq hN hs render (.custom segs) segs rfl addSelf
+
+/-- the same for every style that resolves (table styles, the default style, custom lists). -/
+theorem format_lines_style (root start : T) (sp : List Nat) (hN : IdsNodup root)
+    (hs : root.sub sp = some start) (render : T → String) (style : StyleArg) (segs : List String)
+    (hr : resolveStyle style = some segs) (hl : style ≠ .name "list") (addSelf : Bool) :
+    formatIter root start render style addSelf =
+      Spec.lines root start sp render segs addSelf := by
+  unfold formatIter
+  rw [if_neg hl]
+  exact renderLines_eq hN hs render style segs hr addSelf
+
+/-- an unknown style name is an error (ValueError). -/
+theorem format_lines_unknown (root start : T) (render : T → String) (style : StyleArg)
+    (hr : resolveStyle style = none) (hl : style ≠ .name "list") (addSelf : Bool) :
+    formatIter root start render style addSelf = none := by
+  unfold formatIter renderLines
+  rw [if_neg hl, hr]
+
+/-! ### (2) the "list" style -/
+
+theorem list_style (root start : T) (render : T → String) (addSelf : Bool) :
+    formatIter root start render (.name "list") addSelf =
+      some (((if addSelf then [start] else []) ++ flatL start.kids).map render) := by
+  unfold formatIter
+  rw [if_pos rfl, iterPre_flat]
+
+/-! ### (3) `Tree.format_iter` -/
+
+/-- the effective title: `None` means "on", except for the "list" style. -/
+def effTitle (style : StyleArg) : TitleArg → TitleArg
+  | .default => if style = StyleArg.name "list" then TitleArg.off else TitleArg.on
+  | t => t
+
+/-- the title line(s). -/
+def titleLines (treeStr : String) : TitleArg → List String
+  | .on => [treeStr]
+  | .text s => if s == "" then [] else [s]
+  | _ => []
+
+/-- `Tree.format_iter` unfolded: title lines, then `Node.format_iter` of the system root. -/
+theorem tree_format_unfold (root : T) (treeStr : String) (render : T → String)
+    (style : StyleArg) (title : TitleArg) :
+    treeFormatIter root treeStr render style title =
+      (formatIter root root render style (effTitle style title != .off)).map
+        (titleLines treeStr (effTitle style title) ++ ·) := by
+  cases title <;> rfl
+
+/-- `Tree.format_iter`: the title line (iff the effective title is on / a non-empty text),
+followed by the lines of the root branch with `add_self := (effective title ≠ off)`. -/
+theorem tree_format (root : T) (hN : IdsNodup root) (treeStr : String) (render : T → String)
+    (style : StyleArg) (segs : List String) (hr : resolveStyle style = some segs)
+    (hl : style ≠ .name "list") (title : TitleArg) :
+    treeFormatIter root treeStr render style title =
+      (Spec.lines root root [] render segs (effTitle style title != .off)).map
+        (titleLines treeStr (effTitle style title) ++ ·) := by
+  rw [tree_format_unfold, format_lines_style root root [] hN (sub_nil root) render style segs hr hl]
+
+/-- for the system root `add_self` is irrelevant: the lines are the prefixed renderings of all
+nodes, where a title (`add_self`) only decides whether the top level gets connectors. -/
+theorem tree_format_lines (root : T) (render : T → String) (segs : List String)
+    (s6 : Spec.Segs6) (hu : unpack segs = some s6) (addSelf : Bool) :
+    Spec.lines root root [] render segs addSelf =
+      some ((Spec.belowWithPaths root []).map fun (p, n) =>
+        String.join (Spec.prefixParts root s6 (if addSelf then 0 else 1) p n) ++ render n) := by
+  unfold Spec.lines
+  rw [hu]
+  simp
+
+/-- `Tree.format_iter` with the "list" style. -/
+theorem tree_format_list (root : T) (treeStr : String) (render : T → String) (title : TitleArg) :
+    treeFormatIter root treeStr render (.name "list") title =
+      some (titleLines treeStr (effTitle (.name "list") title) ++
+        ((if effTitle (.name "list") title != .off then [root] else []) ++ flatL root.kids).map
+          render) := by
+  rw [tree_format_unfold, list_style]
+  rfl
+
+/-- an unknown style is an error for `Tree.format_iter` as well. -/
+theorem tree_format_unknown (root : T) (treeStr : String) (render : T → String)
+    (style : StyleArg) (hr : resolveStyle style = none) (hl : style ≠ .name "list")
+    (title : TitleArg) : treeFormatIter root treeStr render style title = none := by
+  rw [tree_format_unfold, format_lines_unknown root root render style hr hl]
+  rfl
+
+
+/-! ### (5) the prefixes alone determine the shape -/
+
+/-- the counterexample tree: system root with the single top `A`, which has the single child `a1` -/
+def cexTree : T :=
+  .node rootInfo [.node { id := 1, data := rootAtom, did := .int 1 }
+    [.node { id := 2, data := rootAtom, did := .int 2 } []]]
+
+theorem cexTree_below : Spec.belowWithPaths cexTree [] =
+    [([0], .node { id := 1, data := rootAtom, did := .int 1 }
+        [.node { id := 2, data := rootAtom, did := .int 2 } []]),
+     ([0, 0], .node { id := 2, data := rootAtom, did := .int 2 } [])] := by
+  simp [cexTree, Spec.belowWithPaths, Spec.belowWithPaths.go]
+
+/-- the decoded depths of the counterexample are `[0, 0]`: two top-level leaves -/
+example : (Spec.belowWithPaths cexTree []).map (fun (p, n) =>
+    Spec.decodeDepth ("    ", "│   ", "╰── ", "├── ", "╰── ", "├── ")
+      (String.join (Spec.prefixParts cexTree ("    ", "│   ", "╰── ", "├── ", "╰── ", "├── ")
+        (([] : List Nat).length + 1) p n)).length) = [0, 0] := by
+  rw [cexTree_below]; decide
+
+/-- **The target as first stated is false.**  With `lstrip = |sp| + 1` (`add_self=False`) the
+first printed level has an *empty* prefix and the second level a bare connector, so
+`decodeDepth` (which subtracts the connector width) maps both to depth 0.
+Counterexample: the tree `A(a1)` in style "round43": the lines `"A"`, `"╰── a1"` decode to the
+depths `[0, 0]`, i.e. two top-level leaves, not `A(a1)`. -/
+theorem shape_from_prefixes_false :
+    ∃ (root start : T) (sp : List Nat) (s6 : Spec.Segs6),
+      Spec.UniformWidths s6 ∧ IdsNodup root ∧ root.sub sp = some start ∧
+      Spec.shapeOfDepths ((Spec.belowWithPaths start sp).map fun (p, n) =>
+        Spec.decodeDepth s6 (String.join (Spec.prefixParts root s6 (sp.length + 1) p n)).length)
+        ≠ start.kids.map Spec.shapeOf := by
+  refine ⟨cexTree, cexTree, [], ("    ", "│   ", "╰── ", "├── ", "╰── ", "├── "), by decide,
+    by unfold IdsNodup; decide, rfl, ?_⟩
+  rw [cexTree_below]
+  intro h
+  have h2 := congrArg List.length h
+  revert h2
+  decide
+
+/-- the strongest true variant of the stated target, in the `add_self=True` / titled-tree form
+(`lstrip = |sp|`: the first level below `start` carries a connector): the widths of the prefixes
+alone determine the shape of the forest below `start`.
+Missing w.r.t. the statement asked for: `lstrip` is `sp.length`, not `sp.length + 1`
+(see `shape_from_prefixes_false`; for `sp.length + 1` see `shape_from_prefixes_noself`).
+Neither `IdsNodup root` nor `root.sub sp = some start` is needed. -/
+theorem shape_from_prefixes_self (root start : T) (sp : List Nat) (s6 : Spec.Segs6)
+    (hU : Spec.UniformWidths s6) :
+    Spec.shapeOfDepths ((Spec.belowWithPaths start sp).map fun (p, n) =>
+        Spec.decodeDepth s6 (String.join (Spec.prefixParts root s6 sp.length p n)).length)
+      = start.kids.map Spec.shapeOf := by
+  rw [decoded_depths root start sp s6 hU, shapeOfDepths_depthsL]
+
+/-- the `add_self=False` form (`lstrip = |sp| + 1`) with the decoder `decodeDepth0`
+(empty prefix = depth 0, otherwise `decodeDepth + 1`); needs a non-empty connector `s2`
+(true for every table style, see `table_connector_nonempty`). -/
+theorem shape_from_prefixes_noself (root start : T) (sp : List Nat) (s6 : Spec.Segs6)
+    (hU : Spec.UniformWidths s6) (h2 : 0 < s6.2.2.1.length) :
+    Spec.shapeOfDepths ((Spec.belowWithPaths start sp).map fun (p, n) =>
+        Spec.decodeDepth0 s6 (String.join (Spec.prefixParts root s6 (sp.length + 1) p n)).length)
+      = start.kids.map Spec.shapeOf := by
+  rw [decoded_depths0 root start sp s6 hU h2, shapeOfDepths_depthsL]
+
+/-- every table style has non-empty connectors. -/
+theorem table_connector_nonempty : ∀ e ∈ Nutree.Generated.connectors,
+    ∀ s6, unpack e.2 = some s6 → 0 < s6.2.2.1.length := by
+  have h : ∀ e ∈ Nutree.Generated.connectors,
+      (match unpack e.2 with | some s6 => decide (0 < s6.2.2.1.length) | none => true) = true := by
+    decide
+  intro e he s6 hs
+  have := h e he
+  rw [hs] at this
+  simpa using this
+
+/-- the width of the prefix of a line, with uniform widths: `depth * w0 + w2` in the printed
+levels, 0 in the stripped levels. -/
+theorem prefix_width (root : T) (s6 : Spec.Segs6) (hU : Spec.UniformWidths s6)
+    (lstrip : Nat) (p : List Nat) (n : T) :
+    (String.join (Spec.prefixParts root s6 lstrip p n)).length =
+      if p.length - 1 ≥ lstrip then (p.length - 1 - lstrip) * s6.1.length + s6.2.2.1.length
+      else 0 :=
+  prefixParts_length root s6 hU lstrip p n
+
+/-! ### (6) the segments of a prefix determine the flags -/
+
+/-- For a node in a printed level (`lstrip ≤ |p| - 1`) the list of prefix segments is
+`parts ++ [own]`, and (a) with `s0 ≠ s1` decoding the ancestor segments gives, ancestor by
+ancestor, whether that ancestor is a last sibling; (b) with `s2, s3, s4, s5` pairwise distinct
+(the compact 6-segment styles) the own connector gives (is-last, has-children). -/
+theorem flags_from_prefix (root n : T) (p : List Nat) (s6 : Spec.Segs6) (lstrip : Nat)
+    (hd : lstrip ≤ p.length - 1) :
+    ∃ parts own, Spec.prefixParts root s6 lstrip p n = parts ++ [own] ∧
+      (s6.1 ≠ s6.2.1 →
+        parts.map (Spec.decodeAnc s6) =
+          ((Spec.prefixes p.dropLast).drop lstrip).map (Spec.lastAt root)) ∧
+      (s6.2.2.1 ≠ s6.2.2.2.1 → s6.2.2.2.2.1 ≠ s6.2.2.2.2.2 → s6.2.2.1 ≠ s6.2.2.2.2.1 →
+        s6.2.2.1 ≠ s6.2.2.2.2.2 → s6.2.2.2.1 ≠ s6.2.2.2.2.1 → s6.2.2.2.1 ≠ s6.2.2.2.2.2 →
+        Spec.decodeOwn s6 own = (Spec.lastAt root p, !n.kids.isEmpty)) ∧
+      (s6.2.2.1 ≠ s6.2.2.2.1 → s6.2.2.1 ≠ s6.2.2.2.2.2 → s6.2.2.2.2.1 ≠ s6.2.2.2.1 →
+        s6.2.2.2.2.1 ≠ s6.2.2.2.2.2 → Spec.decodeOwnLast s6 own = Spec.lastAt root p) :=
+  ⟨_, _, prefixParts_printed root s6 lstrip p n hd,
+    fun h01 => map_decodeAnc root s6 h01 _,
+    fun h23 h45 h24 h25 h34 h35 => decodeOwn_ite s6 h23 h45 h24 h25 h34 h35 _ _,
+    fun h23 h25 h43 h45 => decodeOwnLast_ite s6 h23 h25 h43 h45 _ _⟩
+
+/-- the same, computed from the list of segments: all but the last segment are ancestor
+segments, the last one is the own connector. -/
+theorem flags_from_prefix_list (root n : T) (p : List Nat) (s6 : Spec.Segs6) (lstrip : Nat)
+    (hd : lstrip ≤ p.length - 1) (h01 : s6.1 ≠ s6.2.1) (h23 : s6.2.2.1 ≠ s6.2.2.2.1)
+    (h45 : s6.2.2.2.2.1 ≠ s6.2.2.2.2.2) (h24 : s6.2.2.1 ≠ s6.2.2.2.2.1)
+    (h25 : s6.2.2.1 ≠ s6.2.2.2.2.2) (h34 : s6.2.2.2.1 ≠ s6.2.2.2.2.1)
+    (h35 : s6.2.2.2.1 ≠ s6.2.2.2.2.2) :
+    (Spec.prefixParts root s6 lstrip p n).dropLast.map (Spec.decodeAnc s6) =
+        ((Spec.prefixes p.dropLast).drop lstrip).map (Spec.lastAt root) ∧
+      (Spec.prefixParts root s6 lstrip p n).getLast?.map (Spec.decodeOwn s6) =
+        some (Spec.lastAt root p, !n.kids.isEmpty) := by
+  obtain ⟨parts, own, he, ha, ho, _⟩ := flags_from_prefix root n p s6 lstrip hd
+  rw [he, List.dropLast_concat, List.getLast?_concat]
+  exact ⟨ha h01, by rw [Option.map_some, ho h23 h45 h24 h25 h34 h35]⟩
+
+/-- 4-segment styles (`s4 = s2`, `s5 = s3`): with `s0 ≠ s1` and `s2 ≠ s3` the segments
+determine the is-last flags of all ancestors and of the node itself. -/
+theorem flags_from_prefix_4 (root n : T) (p : List Nat) (s0 s1 s2 s3 : String) (lstrip : Nat)
+    (hd : lstrip ≤ p.length - 1) (h01 : s0 ≠ s1) (h23 : s2 ≠ s3) :
+    ∃ s6, unpack [s0, s1, s2, s3] = some s6 ∧
+      (Spec.prefixParts root s6 lstrip p n).dropLast.map (Spec.decodeAnc s6) =
+        ((Spec.prefixes p.dropLast).drop lstrip).map (Spec.lastAt root) ∧
+      (Spec.prefixParts root s6 lstrip p n).getLast?.map (Spec.decodeOwnLast s6) =
+        some (Spec.lastAt root p) := by
+  refine ⟨(s0, s1, s2, s3, s2, s3), rfl, ?_⟩
+  obtain ⟨parts, own, he, ha, _, hl⟩ :=
+    flags_from_prefix root n p (s0, s1, s2, s3, s2, s3) lstrip hd
+  rw [he, List.dropLast_concat, List.getLast?_concat]
+  exact ⟨ha h01, by rw [Option.map_some, hl h23 h23 h23 h23]⟩
+
+/-- a node in a stripped level has no prefix at all. -/
+theorem stripped_prefix (root n : T) (p : List Nat) (s6 : Spec.Segs6) (lstrip : Nat)
+    (hd : ¬ lstrip ≤ p.length - 1) : Spec.prefixParts root s6 lstrip p n = [] :=
+  prefixParts_stripped root s6 lstrip p n hd
+
+/-- the compact table styles satisfy all distinctness conditions of `flags_from_prefix_list`. -/
+theorem compact_styles_decodable :
+    ∀ name ∈ ["lines32c", "lines43c", "round32c", "round43c"],
+      ∃ segs s6, Nutree.Generated.connectors.lookup name = some segs ∧ unpack segs = some s6 ∧
+        s6.1 ≠ s6.2.1 ∧ s6.2.2.1 ≠ s6.2.2.2.1 ∧ s6.2.2.2.2.1 ≠ s6.2.2.2.2.2 ∧
+        s6.2.2.1 ≠ s6.2.2.2.2.1 ∧ s6.2.2.1 ≠ s6.2.2.2.2.2 ∧ s6.2.2.2.1 ≠ s6.2.2.2.2.1 ∧
+        s6.2.2.2.1 ≠ s6.2.2.2.2.2 := by
+  intro name h
+  simp only [List.mem_cons, List.not_mem_nil, or_false] at h
+  rcases h with rfl | rfl | rfl | rfl <;> exact ⟨_, _, rfl, rfl, by decide⟩
+
+/-! ### (7) non-vacuity: a concrete tree (8 nodes with the system root, depth 3) -/
+
+private def mkN (n : Nat) (s : String) : Info :=
+  { id := n, data := { rootAtom with obj := n, eqc := n, name := s }, did := .int n }
+
+/-- system root with tops A, B; A has a1 (with a11, a12) and a2; B has b1. -/
+def exTree : T :=
+  .node rootInfo
+    [.node (mkN 1 "A") [.node (mkN 2 "a1") [.node (mkN 3 "a11") [], .node (mkN 4 "a12") []],
+                        .node (mkN 5 "a2") []],
+     .node (mkN 6 "B") [.node (mkN 7 "b1") []]]
+
+example : IdsNodup exTree ∧ (T.flat exTree).length = 8 ∧ exTree.height = 3 := by
+  refine ⟨by unfold IdsNodup; decide, by decide, by decide⟩
+
+example : formatIter exTree exTree T.name (.name "round43") true =
+    some ["├── A", "│   ├── a1", "│   │   ├── a11", "│   │   ╰── a12", "│   ╰── a2",
+          "╰── B", "    ╰── b1"] := by decide
+
+example : formatIter exTree exTree T.name (.name "round43") false =
+    some ["A", "├── a1", "│   ├── a11", "│   ╰── a12", "╰── a2", "B", "╰── b1"] := by decide
+
+/-- a sub-branch: `A.format_iter(add_self=True)` and the compact style -/
+example : exTree.sub [0] = some (.node (mkN 1 "A") [.node (mkN 2 "a1") [.node (mkN 3 "a11") [], .node (mkN 4 "a12") []], .node (mkN 5 "a2") []]) ∧
+    formatIter exTree ((exTree.sub [0]).getD exTree) T.name (.name "round43c") true =
+      some ["A", "├─┬ a1", "│ ├── a11", "│ ╰── a12", "╰── a2"] := by decide
+
+example : treeFormatIter exTree "Tree<'x'>" T.name .default .default =
+    some ["Tree<'x'>", "├── A", "│   ├── a1", "│   │   ├── a11", "│   │   ╰── a12", "│   ╰── a2",
+          "╰── B", "    ╰── b1"] := by decide
+
+theorem exTree_below : Spec.belowWithPaths exTree [] =
+    [([0], .node (mkN 1 "A") [.node (mkN 2 "a1") [.node (mkN 3 "a11") [], .node (mkN 4 "a12") []],
+                              .node (mkN 5 "a2") []]),
+     ([0, 0], .node (mkN 2 "a1") [.node (mkN 3 "a11") [], .node (mkN 4 "a12") []]),
+     ([0, 0, 0], .node (mkN 3 "a11") []), ([0, 0, 1], .node (mkN 4 "a12") []),
+     ([0, 1], .node (mkN 5 "a2") []),
+     ([1], .node (mkN 6 "B") [.node (mkN 7 "b1") []]), ([1, 0], .node (mkN 7 "b1") [])] := by
+  simp [exTree, Spec.belowWithPaths, Spec.belowWithPaths.go]
+
+/-- the specification gives the same value (so `format_lines` is not vacuous here) -/
+example : Spec.lines exTree exTree [] T.name ["    ", "│   ", "╰── ", "├── "] true =
+    some ["├── A", "│   ├── a1", "│   │   ├── a11", "│   │   ╰── a12", "│   ╰── a2",
+          "╰── B", "    ╰── b1"] := by
+  unfold Spec.lines
+  rw [exTree_below]
+  decide
+
+/-- the shape is recovered from the widths of these prefixes: 4, 8, 12, 12, 8, 4, 8 -/
+example : Spec.shapeOfDepths ([4, 8, 12, 12, 8, 4, 8].map
+      (Spec.decodeDepth ("    ", "│   ", "╰── ", "├── ", "╰── ", "├── "))) =
+    exTree.kids.map Spec.shapeOf := by
+  have h := shape_from_prefixes_self exTree exTree []
+    ("    ", "│   ", "╰── ", "├── ", "╰── ", "├── ") (by decide)
+  rw [← h, exTree_below]
+  congr 1
 
 end Nutree.C16
